@@ -95,7 +95,7 @@ ValChunks(v, sp) == CASE v.t \in {"num", "frac"} -> NumChunksSp(v, sp)
                       [] v.t = "text" -> <<v.s>>
 \* what a value written like this READS as: without RANGE a range is a text value (only generated compactly then)
 RECURSIVE Flat(_, _)
-Flat(cs, i) == IF i > Len(cs) THEN "" ELSE (IF cs[i] = "SP" THEN " " ELSE cs[i]) \o Flat(cs, i + 1)
+Flat(cs, i) == IF i > Len(cs) THEN "" ELSE (IF cs[i] \in {"SP", "NSP"} THEN " " ELSE cs[i]) \o Flat(cs, i + 1)
 ReadVal(v) == IF v.t = "range" /\ ~Has("RANGE") THEN Txt(Flat(ValChunks(v, Canon), 1)) ELSE v
 CanAdv(q) == Syn("ADVANCED_UNITS") /\ q.v.t # "text" /\ q.unit # "" /\ (Has("ADVANCED_UNITS") \/ ~q.lock)
 \* quantity between braces
@@ -181,16 +181,19 @@ FrontMatter == /\ Top /\ w.nb = 0 /\ text = <<>> /\ Kernel = "full"
                     /\ text' = <<"---">> \o NL \o <<m1.k, ": ", "QUOTE", m1.v, "QUOTE">> \o NL \o <<m2.k, ": ", "QUOTE", m2.v, "QUOTE">> \o NL \o <<"---">> \o NL
                     /\ a' = AFrontMatter(a, <<m1, m2>>, TRUE)
                     /\ w' = [w EXCEPT !.nb = @ + 1, !.prev = "meta", !.fm = TRUE]
+\* the blank inside a two-word section name is a mark ("SP") where C17 may put a block comment
+SecChunks(n) == IF n = "Main part" THEN <<"Main", "SP", "part">> ELSE <<n>>
 AddSection == /\ Top /\ Kernel \in {"full", "struct"}
               /\ \E n \in Pick(SectionNames), sp \in SpSet :
                    /\ text' = text \o BlockGap("section", sp)
-                                \o (CASE sp.sec = 1 -> <<"= ", n>> [] sp.sec = 2 -> <<"== ", n, " ==">> [] sp.sec = 3 -> <<"=", n, "=  ">>) \o NL
+                                \o (CASE sp.sec = 1 -> <<"= ">> \o SecChunks(n) [] sp.sec = 2 -> <<"== ">> \o SecChunks(n) \o <<" ==">>
+                                      [] sp.sec = 3 -> <<"=">> \o SecChunks(n) \o <<"=  ">>) \o NL
                    /\ a' = ASection(a, n)
                    /\ w' = [w EXCEPT !.nb = @ + 1, !.prev = "section"]
 AddTextBlock == /\ Top /\ Kernel \in {"full", "struct"}
                 /\ \E x \in Pick(Words \ {"50%"}), y \in Pick(Words \ {"50%"}), sp \in SpSet :
                      /\ text' = text \o BlockGap("text", sp) \o <<"> ">> \o WordChunks(x)
-                                  \o (CASE sp.sep \in {1, 2} -> <<" ">> [] sp.sep = 3 -> NL [] sp.sep \in {4, 5} -> NL \o <<"> ">>) \o WordChunks(y) \o NL
+                                  \o (CASE sp.sep \in {1, 2} -> <<"SP">> [] sp.sep = 3 -> NL [] sp.sep \in {4, 5} -> NL \o <<"> ">>) \o WordChunks(y) \o NL
                      /\ a' = AEnd(AText(AStart(a, "text"), <<[t |-> "s", v |-> WordText(x) \o " " \o WordText(y)]>>, TRUE))
                      /\ w' = [w EXCEPT !.nb = @ + 1, !.prev = "text"]
 
